@@ -22,6 +22,8 @@ type filterVal struct {
 	// the value holds a line break (block scalar, "\n" escape): every diagnostic of the validator
 	// must be reported by the rule (the value is not trimmed), the column is not compared
 	loose bool
+	// prop: length of the node properties (anchor, tag) written before the scalar on its line
+	prop int
 }
 
 const plainAlpha = "az0/.*+?~^[]-\\!%"
@@ -99,7 +101,7 @@ func lintCheck(r *hx.Rng, n int) (fails []failure, colCases []string, count int)
 				txt, q, p := scalar()
 				prefix := "    " + key.name + ": "
 				put(prefix + txt)
-				vals = append(vals, filterVal{line, len(prefix) + 1, q, key.isRef, p, false})
+				vals = append(vals, filterVal{line, len(prefix) + 1, q, key.isRef, p, false, 0})
 			} else {
 				put("    " + key.name + ":")
 				for i := 0; i < 1+r.Intn(3); i++ {
@@ -115,26 +117,34 @@ func lintCheck(r *hx.Rng, n int) (fails []failure, colCases []string, count int)
 						case 0:
 							put("      - |")
 							put("        " + base)
-							vals = append(vals, filterVal{line - 1, 9, false, key.isRef, base + "\n", true})
+							vals = append(vals, filterVal{line - 1, 9, false, key.isRef, base + "\n", true, 0})
 						case 1:
 							put("      - >")
 							put("        " + base)
-							vals = append(vals, filterVal{line - 1, 9, false, key.isRef, base + "\n", true})
+							vals = append(vals, filterVal{line - 1, 9, false, key.isRef, base + "\n", true, 0})
 						case 2:
 							put("      - |+")
 							put("        " + base)
 							put("")
-							vals = append(vals, filterVal{line - 2, 9, false, key.isRef, base + "\n\n", true})
+							vals = append(vals, filterVal{line - 2, 9, false, key.isRef, base + "\n\n", true, 0})
 						default:
 							b2 := strings.ReplaceAll(base, "\\", "")
 							put("      - \"" + b2 + "\\n\"")
-							vals = append(vals, filterVal{line, 9, true, key.isRef, b2 + "\n", true})
+							vals = append(vals, filterVal{line, 9, true, key.isRef, b2 + "\n", true, 0})
 						}
 						continue
 					}
 					txt, q, p := scalar()
-					put("      - " + txt)
-					vals = append(vals, filterVal{line, 9, q, key.isRef, p, false})
+					// an anchor or an explicit tag before the entry: the pattern starts after it
+					prop := ""
+					switch (count*7 + len(vals)) % 13 {
+					case 6:
+						prop = fmt.Sprintf("&a%d ", len(vals))
+					case 11:
+						prop = "!!str "
+					}
+					put("      - " + prop + txt)
+					vals = append(vals, filterVal{line, 9 + len(prop), q, key.isRef, p, false, len(prop)})
 					if r.Chance(1, 5) {
 						// the same entry once more (as it is, or in the other letter case): validated again
 						t2, p2 := txt, p
@@ -142,7 +152,7 @@ func lintCheck(r *hx.Rng, n int) (fails []failure, colCases []string, count int)
 							t2, p2 = strings.ToUpper(txt), strings.ToUpper(p)
 						}
 						put("      - " + t2)
-						vals = append(vals, filterVal{line, 9, q, key.isRef, p2, false})
+						vals = append(vals, filterVal{line, 9, q, key.isRef, p2, false, 0})
 					}
 				}
 			}
@@ -178,6 +188,7 @@ func lintCheck(r *hx.Rng, n int) (fails []failure, colCases []string, count int)
 		lines := strings.Split(src, "\n")
 		nwant := 0
 		bad := ""
+		propShift := ""
 		for _, v := range vals {
 			var ges []actionlint.InvalidGlobPattern
 			if v.isRef {
@@ -203,7 +214,7 @@ func lintCheck(r *hx.Rng, n int) (fails []failure, colCases []string, count int)
 							if exact || p.line != v.line {
 								continue
 							}
-						} else if p.line != v.line || (exact && p.col != want) {
+						} else if p.line != v.line || (exact && p.col != want && !(v.prop > 0 && p.col == want-v.prop)) {
 							continue
 						}
 						for i, m := range ms {
@@ -214,7 +225,14 @@ func lintCheck(r *hx.Rng, n int) (fails []failure, colCases []string, count int)
 									return
 								}
 								// observed position of this diagnostic
-								colCases = append(colCases, fmt.Sprintf("((%d%%N, %s, %d%%N), [[%d]]%%N)", v.col, hx.CoqBool(v.quoted), ge.Column, p.col))
+								// (the model takes the position of the NODE, which yaml.v3 puts at the anchor / tag)
+								colCases = append(colCases, fmt.Sprintf("((%d%%N, %s, %d%%N), [[%d]]%%N)", v.col-v.prop, hx.CoqBool(v.quoted), ge.Column, p.col))
+								if v.prop > 0 && p.col == want-v.prop {
+									propShift = fmt.Sprintf("line %d: %q reported at column %d, the designated character is at column %d: the column counts from the anchor / tag written before the pattern", v.line, ge.Message, p.col, want)
+									ms[i] = ""
+									found = true
+									return
+								}
 								if p.col != want {
 									bad = fmt.Sprintf("line %d: %q reported at column %d, the designated character is at column %d", v.line, ge.Message, p.col, want)
 								}
@@ -246,6 +264,8 @@ func lintCheck(r *hx.Rng, n int) (fails []failure, colCases []string, count int)
 		}
 		if bad != "" {
 			fails = append(fails, failure{What: "rule_glob position: " + bad, Key: "lint:" + src, Pattern: src, Mode: "lint", Detail: bad})
+		} else if propShift != "" {
+			fails = append(fails, failure{What: "rule_glob position: " + propShift, Key: "lint-node-property-before-pattern", Pattern: src, Mode: "lint", Detail: propShift})
 		}
 	}
 	return
